@@ -123,6 +123,7 @@ PROPS["C12"] = {
 
 PROPS["C11"] = {
     "verus_units": ["scheduler"],
+    "replay": "sched",
     "kani_units": [{
         "unit": "sched", "subst_quick": {}, "subst_thorough": {},
         "bound_note": "real std BinaryHeap with 3 tasks (times fully symbolic)",
